@@ -275,10 +275,17 @@ func runC14Foreign(c *core.Ctx) {
 	donl := t.Chance(1, 3)
 	units := genH265Units(t, 20+t.Intn(40))
 	ps, exp := foreignH265(t, units, donl)
+	long := &codecs.H265Packet{} // a receiver with a history must decode the same values as a fresh one
+	long.WithDONL(donl)
 	for i, p := range ps {
 		e := exp[i]
 		rx := &codecs.H265Packet{}
 		rx.WithDONL(donl)
+		if i%2 == 1 {
+			rx = long
+		} else {
+			c.Guard("codecs.H265Packet.Unmarshal", func() { _, _ = long.Unmarshal(p) })
+		}
 		var err error
 		if c.Guard("codecs.H265Packet.Unmarshal", func() { _, err = rx.Unmarshal(p) }) {
 			return
